@@ -362,6 +362,69 @@ def run_expand(chk, c2m, d, quick):
     return len(results), bad
 
 
+# ------------------------------------------------------------------ PpExpand model vs c2m (object-like macros)
+OTHERS = ['+', '-', '*', '(', ')', '[', ']', '1', '22', ';', '"s"', '<', '==', ',', '0x3']
+
+
+def run_objlike(chk, c2m, model, d, quick):
+    """the extracted PpExpand.expand against c2m -E (and gcc) on object-like macro tables"""
+    n = 300 if quick else 5000
+    cases, queries, meta = [], [], []
+    for k in range(n):
+        rng = chk.rng('obj%d' % k)
+        nm = rng.randint(1, 5)
+        nplain = rng.randint(1, 3)
+
+        def tok():
+            r = rng.random()
+            if r < 0.45:
+                return 'i%d' % rng.randrange(nm)
+            if r < 0.6:
+                return 'i%d' % (nm + rng.randrange(nplain))
+            return 'o%d' % rng.randrange(len(OTHERS))
+        bodies = [[tok() for _ in range(rng.randint(0, 5))] for _ in range(nm)]
+        inp = [tok() for _ in range(rng.randint(1, 6))]
+        queries.append('X %d ; %s ; %s' % (nm, ' ; '.join(' '.join(b) for b in bodies), ' '.join(inp)))
+
+        def spell(t, k=k):
+            return 'e%d_I%s' % (k, t[1:]) if t[0] in 'ip' else OTHERS[int(t[1:])]
+        text = ''.join('#define e%d_I%d %s\n' % (k, i, ' '.join(spell(t) for t in b)) for i, b in enumerate(bodies))
+        text += ' '.join(spell(t) for t in inp) + '\n'
+        cases.append((k, text))
+        meta.append(spell)
+    rc, out, err = vlib.run_lines(model, queries, timeout=600)
+    if rc != 0 or len(out) != len(queries):
+        raise vlib.BuildError('driver_c09 (expand) failed: rc=%d %s' % (rc, err[-300:]))
+    results = {}
+    B = 100
+    for off in range(0, len(cases), B):
+        results.update(compare_cases(c2m, cases[off:off + B], d, 'obj%d' % off))
+    breaks, diffs = [], []
+    for (k, text), mo, spell in zip(cases, out, meta):
+        st, c, g = results[k]
+        if st == 'unspecified':
+            chk.dist('objlike', 'unspecified')
+            continue
+        c, g = c[1:] if c[:1] == [';'] else c, g[1:] if g[:1] == [';'] else g   # the `;` of the case marker line
+        want = [spell(t) for t in mo.split()] if mo != 'OUT-OF-FUEL' else None
+        chk.count('obj:' + text, nontrivial=len(g) >= 2)
+        chk.dist('objlike', st)
+        if st == 'diff':
+            diffs.append((k, text, c, g))
+        if want is None or M.squash(want) != M.squash(c):
+            breaks.append((text, want, c))
+        if want is not None and M.squash(want) != M.squash(g):
+            raise vlib.BuildError('PpExpand model disagrees with gcc on %r: %s vs %s' % (text, want, g))
+    for k, text, c, g in diffs[:3]:
+        small = shrink_pp_case(c2m, text, d)
+        r = compare_cases(c2m, [(0, small)], d, 'shr')[0]
+        chk.finding('pp:' + hashlib.sha1(small.encode()).hexdigest()[:12],
+                    dict(kind='pp', text=small, original=text, c2m=' '.join(r[1]), gcc=' '.join(r[2])),
+                    'object-like expansion of %s gives `%s` under c2m -E but `%s` under gcc/clang and the PpExpand model'
+                    % (json.dumps(small)[:300], ' '.join(r[1])[:200], ' '.join(r[2])[:200]))
+    return len(cases), breaks
+
+
 # ------------------------------------------------------------------ driver
 def run(chk):
     quick = chk.tier == 'quick'
@@ -378,17 +441,21 @@ def run(chk):
         c2m = mine
         n_if, if_findings, if_model_breaks = run_if(chk, c2m, model, d, quick)
         n_pp, pp_bad = run_expand(chk, c2m, d, quick)
+        n_obj, obj_breaks = run_objlike(chk, c2m, model, d, quick)
     chk.cov['rule'] = ('#if: each generated controlling expression to which the C11 model gives a value is run as three '
                        'directives (group selection; (e)==predicted value; 0*(e)-1<0 for the type) under c2m -E and gcc -E '
                        'and compared with the extracted PpIf and C11If models; non-trivial = at least 3 nodes; distinct by text.  '
                        'pp: seeded macro sets + uses and nested conditional structures, token stream of c2m -E vs gcc -E -P, '
                        'counted only where gcc and clang agree (otherwise C11 leaves the nesting unspecified); non-trivial = at least 3 output tokens')
-    tie_broken = bool(lim) or not r['ok'] or bool(if_model_breaks)
+    tie_broken = bool(lim) or not r['ok'] or bool(if_model_breaks) or bool(obj_breaks)
     if tie_broken and not chk.violations:
         if lim:
             r = dict(r)
             r['log'] = r['log'] + '\nLimits tie: ' + '; '.join(lim)
-        chk.proof_broken(r, searched='%d #if expressions agreed between c2m, gcc and the models' % n_if)
+        if obj_breaks:
+            r = dict(r)
+            r['log'] += '\nPpExpand model disagrees with c2m -E on: %r' % (obj_breaks[:2],)
+        chk.proof_broken(r, searched='%d #if expressions, %d macro/conditional cases and %d object-like tables agreed between c2m, gcc and the models' % (n_if, n_pp, n_obj))
 
 
 def replay(chk, path):
